@@ -192,6 +192,9 @@ impl<'a> Sess<'a> {
 
     /// update with a crafted coupon (hook)
     pub fn upd(&mut self, id: usize, c: u32) {
+        if self.dead {
+            return;
+        }
         let mut sk = self.sk[id].take().unwrap();
         let r = self.guard("update", std::panic::AssertUnwindSafe(|| {
             sk.verif_update_with_coupon(c);
@@ -201,12 +204,17 @@ impl<'a> Sess<'a> {
             let st = sk.verif_state();
             self.out.ev(json!({"op":"Upd","id":id,"c":pair(c),"st":sc(&st, c & 0x3ffffff),"o":obs(&sk)}));
             self.sk[id] = Some(sk);
+        } else {
+            self.sk[id] = Some(HllSketch::new(4, HllType::Hll8)); // the run is over (dead); keep the slot valid
         }
     }
 
     /// update a triplet; `item` = Some(u64) goes through the public update (coupon from the
     /// reference hash), None feeds the crafted coupon through the hook.
     pub fn upd3(&mut self, ids: [usize; 3], c: u32, item: Option<u64>) {
+        if self.dead {
+            return;
+        }
         let mut sts = vec![];
         let mut os = vec![];
         let mut toks = vec![];
@@ -227,7 +235,10 @@ impl<'a> Sess<'a> {
                     toks.push(tok(&sk));
                     self.sk[id] = Some(sk);
                 }
-                None => return,
+                None => {
+                    self.sk[id] = Some(HllSketch::new(4, HllType::Hll8));
+                    return;
+                }
             }
         }
         self.out.ev(json!({"op":"Upd3","ids":ids,"c":pair(c),"st":sts,"o":os,"tok":toks}));
@@ -301,6 +312,8 @@ impl<'a> Sess<'a> {
             let st = un.verif_gadget().verif_state();
             self.out.ev(json!({"op":"UUpd","id":u,"src":src,"st":sc(&st, 0),"o":uobs(&un)}));
             self.un[u] = Some(un);
+        } else {
+            self.un[u] = Some(HllUnion::new(4));
         }
     }
 
@@ -318,6 +331,8 @@ impl<'a> Sess<'a> {
             let st = un.verif_gadget().verif_state();
             self.out.ev(json!({"op":"UVal","id":u,"c":[slot,val],"st":sc(&st, 0),"o":uobs(&un)}));
             self.un[u] = Some(un);
+        } else {
+            self.un[u] = Some(HllUnion::new(4));
         }
     }
 
